@@ -83,8 +83,11 @@ func soupProgram(c *worker.Ctx) (string, bool) {
 		fmt.Fprintf(&b, "  declare local %s %s;\n", l.name, l.typ)
 	}
 	b.WriteString("  set var.i = 7; set var.f = 1.5; set var.s = \"s\"; set var.r = 10s; set var.ip = \"192.0.2.1\";\n")
+	exprFirst := c.T.Bool(1, 2) // a runtime error ends the subroutine: whichever block comes first is the one that runs in full
+	var assigns, exprs strings.Builder
 	n := 1 + c.T.Draw(8)
 	for i := 0; i < n; i++ {
+		w := &assigns
 		var target string
 		if c.T.Bool(1, 5) {
 			target = []string{"req.http.X-A", "req.http.X-N", "req.http.Cookie:k", "req.url", "req.hash", "req.max_stale_if_error", "req.backend.x"}[c.T.Draw(7)]
@@ -93,13 +96,14 @@ func soupProgram(c *worker.Ctx) (string, bool) {
 		}
 		op := assignOps[c.T.Draw(len(assignOps))]
 		val := operandFor(c)
-		fmt.Fprintf(&b, "  set %s %s %s;\n", target, op, val)
+		fmt.Fprintf(w, "  set %s %s %s;\n", target, op, val)
 		boundary = true
 	}
 	// expression shapes: signed and negated operands at every position of a
 	// concatenation, in conditions and on the right of every local's type
-	ne := c.T.Draw(4)
+	ne := c.T.Draw(9)
 	for i := 0; i < ne; i++ {
+		w := &exprs
 		pfx := func() string { return []string{"", "", "+", "-"}[c.T.Draw(4)] }
 		lv := func() string { return locals[c.T.Draw(len(locals))].name }
 		lit := func() string {
@@ -108,22 +112,29 @@ func soupProgram(c *worker.Ctx) (string, bool) {
 		op := func() string { return []string{" ", " + ", " "}[c.T.Draw(3)] }
 		switch c.T.Draw(7) {
 		case 0:
-			fmt.Fprintf(&b, "  set req.http.X-A = %s%s%s%s;\n", pfx(), lv(), op(), lit())
+			fmt.Fprintf(w, "  set req.http.X-A = %s%s%s%s;\n", pfx(), lv(), op(), lit())
 		case 1:
-			fmt.Fprintf(&b, "  set var.s = %s%s%s%s%s%s;\n", lit(), op(), pfx(), lv(), op(), lit())
+			fmt.Fprintf(w, "  set var.s = %s%s%s%s%s%s;\n", lit(), op(), pfx(), lv(), op(), lit())
 		case 2:
-			fmt.Fprintf(&b, "  log %s%s%s%s%s%s%s;\n", pfx(), lv(), op(), lit(), op(), pfx(), lv())
+			fmt.Fprintf(w, "  log %s%s%s%s%s%s%s;\n", pfx(), lv(), op(), lit(), op(), pfx(), lv())
 		case 3:
 			l := locals[c.T.Draw(len(locals))]
-			fmt.Fprintf(&b, "  set %s = %s%s;\n", l.name, pfx(), l.name)
+			fmt.Fprintf(w, "  set %s = %s%s;\n", l.name, pfx(), l.name)
 		case 4:
-			fmt.Fprintf(&b, "  if (%s%s %s %s%s) { log \"c\"; }\n", pfx(), lv(), []string{"==", "!=", ">", "<", ">=", "<=", "~", "!~"}[c.T.Draw(8)], pfx(), lv())
+			fmt.Fprintf(w, "  if (%s%s %s %s%s) { log \"c\"; }\n", pfx(), lv(), []string{"==", "!=", ">", "<", ">=", "<=", "~", "!~"}[c.T.Draw(8)], pfx(), lv())
 		case 5:
-			fmt.Fprintf(&b, "  if (!var.b && (%s%s == %s || !(%s))) { log \"c\"; }\n", pfx(), lv(), lit(), []string{"var.b", "req.http.X-A", "var.s", "var.i == 1"}[c.T.Draw(4)])
+			fmt.Fprintf(w, "  if (!var.b && (%s%s == %s || !(%s))) { log \"c\"; }\n", pfx(), lv(), lit(), []string{"var.b", "req.http.X-A", "var.s", "var.i == 1"}[c.T.Draw(4)])
 		default:
-			fmt.Fprintf(&b, "  set req.http.X-A = if(%s%s %s %s, %s%s, %s);\n", pfx(), lv(), []string{"==", ">", "~"}[c.T.Draw(3)], lit(), pfx(), lv(), lit())
+			fmt.Fprintf(w, "  set req.http.X-A = if(%s%s %s %s, %s%s, %s);\n", pfx(), lv(), []string{"==", ">", "~"}[c.T.Draw(3)], lit(), pfx(), lv(), lit())
 		}
 		boundary = true
+	}
+	if exprFirst {
+		b.WriteString(exprs.String())
+		b.WriteString(assigns.String())
+	} else {
+		b.WriteString(assigns.String())
+		b.WriteString(exprs.String())
 	}
 	if c.T.Bool(1, 3) {
 		b.WriteString("  log var.i var.f var.s var.b var.r var.t var.ip;\n")
